@@ -326,6 +326,9 @@ def choose_value(term, cap: int = 40) -> int:
         return term.as_long()
     if z3.is_bv_value(term):
         return term.as_signed_long()
+    kv = c.known.get(("v", term.get_id()))
+    if kv is not None:
+        return kv
     c.stats.branches += 1
     if c.pos < len(c.prefix):
         d = c.prefix[c.pos]
@@ -335,6 +338,7 @@ def choose_value(term, cap: int = 40) -> int:
         v = d[1]
         c.taken.append(d)
         c.add(term == v)
+        c.known[("v", term.get_id())] = v
         return v
     vals = []
     sl = c.sliced_solver(free_syms(term))
@@ -365,6 +369,7 @@ def choose_value(term, cap: int = 40) -> int:
     c.pos += 1
     c.taken.append(("v", v))
     c.add(term == v)
+    c.known[("v", term.get_id())] = v
     return v
 
 
